@@ -4,8 +4,12 @@ package main
 // fake clock (a 24 h lifetime costs microseconds), with concurrent bursts.
 
 import (
+	"bufio"
+	"context"
 	"encoding/json"
 	"fmt"
+	"io"
+	"net/http"
 	"sort"
 	"strings"
 	"sync"
@@ -30,7 +34,7 @@ type c14Spec struct {
 
 type c14Harness struct{}
 
-var c14Kinds = []string{"lifetime-expiry", "lifetime-expiry", "lifetime-host", "unique", "burst-sessions", "burst-sessions", "burst-receivers", "burst-receivers", "burst-conns", "msgsize", "msgrate", "reconnect-receivers", "iprate", "conns-after-expiry"}
+var c14Kinds = []string{"lifetime-expiry", "lifetime-expiry", "lifetime-host", "unique", "burst-sessions", "burst-sessions", "burst-receivers", "burst-receivers", "burst-conns", "msgsize", "msgrate", "reconnect-receivers", "iprate", "conns-after-expiry", "failed-upgrade"}
 
 func (c14Harness) Gen(r *verifsim.SplitMix, tier string, idx int) any {
 	sp := c14Spec{Seed: r.Next(), SegMax: []int{64, 1400, 65536}[r.Intn(3)]}
@@ -57,6 +61,9 @@ func (c14Harness) Gen(r *verifsim.SplitMix, tier string, idx int) any {
 	case "reconnect-receivers":
 		sp.Limit = 2 + r.Intn(3)
 		sp.N = 2 + r.Intn(3) // newcomers tried after the reconnect
+	case "failed-upgrade":
+		sp.Limit = 1 + r.Intn(3) // --max-receivers-per-sender
+		sp.N = 1 + r.Intn(4)     // requests to /ws that are not WebSocket handshakes
 	case "conns-after-expiry":
 		sp.Limit = 3 + r.Intn(3) // --max-ws-connections
 		sp.Timeout = []string{"2s", "4s"}[r.Intn(2)]
@@ -129,6 +136,8 @@ func (c14Harness) Run(spec any) (res verifsim.RunResult) {
 		flags = append(flags, "--max-receivers-per-sender", fmt.Sprint(sp.Limit))
 	case "burst-conns":
 		flags = append(flags, "--max-ws-connections", fmt.Sprint(sp.Limit), "--max-receivers-per-sender", "0")
+	case "failed-upgrade":
+		flags = append(flags, "--max-receivers-per-sender", fmt.Sprint(sp.Limit), "--max-ws-connections", fmt.Sprint(sp.Limit+1))
 	case "conns-after-expiry":
 		flags = append(flags, "--max-ws-connections", fmt.Sprint(sp.Limit), "--max-receivers-per-sender", "0", "--session-timeout", sp.Timeout, "--max-sessions", "0")
 	case "iprate":
@@ -392,6 +401,63 @@ func (c14Harness) Run(spec any) (res verifsim.RunResult) {
 				}
 				if created < 1 {
 					addV("limit-refused-below-limit", "session-creates-burst", fmt.Sprintf("burst %d but no session could be created", sp.Limit))
+				}
+			})
+		case "failed-upgrade":
+			// Requests to /ws with a live code that are not WebSocket handshakes (a browser, curl,
+			// a wrong protocol version) are refused - and must not use up a receiver's place or a
+			// connection's: afterwards as many receivers as the limit allows are admitted.
+			verifsim.Go("K", func() {
+				defer done.Add(1)
+				si, err := w.createSession("10.0.3.1", "")
+				if err != nil || si.Status != 201 {
+					addV("session-create-failed", sp.Kind, fmt.Sprintf("status=%d err=%v", si.Status, err))
+					return
+				}
+				st, host := try("10.0.3.1", si.Code, "host", "sender")
+				if st != 101 {
+					addV("code-refused-while-live", sp.Kind, fmt.Sprintf("host refused: HTTP %d", st))
+					return
+				}
+				w.startReader("K>hostread", host)
+				for i := 0; i < sp.N; i++ {
+					// written and read by this goroutine alone: no transport goroutines
+					u := strings.TrimPrefix(wsURL(si.Code, fmt.Sprintf("plain%d", i), "receiver", ""), "ws://")
+					hostport, path := u, "/"
+					if k := strings.Index(u, "/"); k >= 0 {
+						hostport, path = u[:k], u[k:]
+					}
+					c, err := w.tnet.Dial(context.Background(), fmt.Sprintf("10.0.6.%d", i+1), hostport)
+					if err != nil {
+						continue
+					}
+					c.SetDeadline(time.Now().Add(5 * time.Second))
+					fmt.Fprintf(c, "GET %s HTTP/1.1\r\nHost: %s\r\nConnection: close\r\n\r\n", path, hostport)
+					if resp, err := http.ReadResponse(bufio.NewReader(c), nil); err == nil {
+						io.Copy(io.Discard, resp.Body)
+						resp.Body.Close()
+						if resp.StatusCode == 101 {
+							addV("harness-panic", "c14:plain-get-upgraded", "a plain GET was answered 101")
+						}
+						res.Counters["plain_requests_refused"]++
+					}
+					c.Close()
+				}
+				time.Sleep(100 * time.Millisecond)
+				admitted := 0
+				for i := 0; i < sp.Limit; i++ {
+					if st, c := try(fmt.Sprintf("10.0.4.%d", i+1), si.Code, fmt.Sprintf("r%d", i), "receiver"); st == 101 {
+						admitted++
+						w.startReader(fmt.Sprintf("K>r%d", i), c)
+					}
+				}
+				res.Counters["failed_upgrade_runs"]++
+				if admitted < sp.Limit {
+					addV("limit-refused-below-limit", "max-receivers-per-sender:after-failed-upgrades", fmt.Sprintf("--max-receivers-per-sender %d: after %d requests to /ws that were not WebSocket handshakes only %d of %d receivers were admitted (no receiver was connected)", sp.Limit, sp.N, admitted, sp.Limit))
+				}
+				if st, c := try("10.0.4.99", si.Code, "over", "receiver"); st == 101 {
+					addV("limit-exceeded", "max-receivers-per-sender", fmt.Sprintf("--max-receivers-per-sender %d: receiver %d admitted", sp.Limit, sp.Limit+1))
+					c.Close()
 				}
 			})
 		case "conns-after-expiry":
